@@ -38,7 +38,7 @@ theorem retries_iff_retryable (f : Option (Nat × Err)) (fs : List (Option (Nat 
 theorem retried_transient (f : Option (Nat × Err)) (fs : List (Option (Nat × Err))) (e : Err) (db' : σ)
     (h : attempt step db body f = (db', some e)) (hr : retryable e = true) :
     run step db body (f :: fs) = runFrom step 1 db body fs := by
-  have hdb := attempt_err step db db' body f e h
+  have hdb := attempt_err_retryable step db db' body f e h hr
   subst hdb
   unfold run
   simp [runFrom, h, hr]
@@ -61,21 +61,39 @@ theorem retries_unbounded (fs rest : List (Option (Nat × Err)))
     congr 1
     omega
 
-/-- Any other failure is re-raised at once: one attempt, the error of that attempt, the database untouched. -/
+/-- Any other failure is re-raised at once: one attempt, the error of that attempt, the database untouched (`he`: the failure is
+not a cancellation; for that case see `cancelled_all_or_nothing`). -/
 theorem gives_up_on_other (f : Option (Nat × Err)) (fs : List (Option (Nat × Err))) (e : Err) (db' : σ)
-    (h : attempt step db body f = (db', some e)) (hr : retryable e = false) :
+    (h : attempt step db body f = (db', some e)) (hr : retryable e = false) (he : e ≠ cancelled) :
     run step db body (f :: fs) = ⟨db, some e, 1⟩ := by
-  have hdb := attempt_err step db db' body f e h
+  have hdb : db' = db := by
+    rcases attempt_err step db db' body f e h with h1 | ⟨h1, _⟩
+    · exact h1
+    · exact absurd h1 he
   subst hdb
   unfold run
   simp [runFrom, h, hr]
 
-/-- No retried or failed attempt leaves partial writes behind: for every sequence of fault scripts the final database is
-the initial one with exactly the statements of the body applied (by the one attempt that committed), or the initial
-database itself when the operation gave up. -/
+/-- An attempt ended by the cancellation of the calling task (or any other `BaseException` leaving the body) is not retried, and
+is all or nothing: the database is untouched, unless the cancellation arrived while the COMMIT was already in flight — then the
+shielded commit completes and the whole body is applied.  Never a part of the body. -/
+theorem cancelled_all_or_nothing (f : Option (Nat × Err)) (fs : List (Option (Nat × Err))) (e : Err) (db' : σ)
+    (h : attempt step db body f = (db', some e)) (hb : e.cls = .base) :
+    run step db body (f :: fs) = ⟨db', some e, 1⟩ ∧ (db' = db ∨ exec step db body none = .ok db') := by
+  have hr : retryable e = false := by obtain ⟨c, n⟩ := e; simp only at hb; subst hb; rfl
+  refine ⟨by unfold run; simp [runFrom, h, hr], ?_⟩
+  rcases attempt_err step db db' body f e h with h1 | ⟨_, h2⟩
+  · exact Or.inl h1
+  · exact Or.inr h2
+
+/-- No retried or failed attempt leaves partial writes behind: for every sequence of fault scripts (injected MySQL errors,
+`BaseException`s, cancellations) the final database is the initial one with exactly the statements of the body applied (by the one
+attempt that committed), or the initial database itself when the operation gave up — the only failure that can leave the body
+applied is a cancellation that arrived after the COMMIT was sent. -/
 theorem no_partial_writes (scripts : List (Option (Nat × Err))) :
     ((run step db body scripts).error = none → exec step db body none = .ok (run step db body scripts).db) ∧
-    (∀ e, (run step db body scripts).error = some e → (run step db body scripts).db = db) :=
+    (∀ e, (run step db body scripts).error = some e → (run step db body scripts).db = db ∨
+      (e = cancelled ∧ exec step db body none = .ok (run step db body scripts).db)) :=
   runFrom_spec step db body scripts 0
 
 /-- An error raised by an instrumented statement (one issued with a `query_name`) leaves the metrics timer unchanged: the
@@ -112,8 +130,8 @@ theorem run_query_name_transparent (scripts : List (Option (Nat × Err))) :
     run step db body scripts = run step db (body.map fun p => (false, p.2)) scripts := by
   have hatt : ∀ (d : σ) f, attempt step d body f = attempt step d (body.map fun p => (false, p.2)) f := by
     intro d f
-    simp only [attempt, Conn.begin]
-    rw [query_name_transparent step body f d]
+    simp only [attempt, Conn.begin, List.length_map]
+    rw [query_name_transparent step body f d, query_name_transparent step body none d]
   unfold run
   generalize 0 = n
   induction scripts generalizing n db with
@@ -185,6 +203,18 @@ open KV in
 -- twelve consecutive deadlocks at the same statement, then a clean attempt: 13 attempts, the write applied once
 example : run KV.step [(1, 5)] [(false, .nop), (false, .nop), (true, .update 1 10)] (List.replicate 12 (some (2, ⟨.operational, 1213⟩)))
     = ⟨[(1, 15)], none, 13⟩ := by decide
+open KV in
+-- the task is cancelled while the 2nd write is in flight, after the 1st write executed: rolled back, not retried, nothing written
+example : run KV.step [(1, 5)] [(false, .nop), (false, .nop), (false, .update 1 1), (true, .upsert 2 3)] [some (3, cancelled), none]
+    = ⟨[(1, 5)], some cancelled, 1⟩ := by decide
+open KV in
+-- cancelled while the COMMIT is in flight: `asyncio.shield` lets the commit complete, the caller still sees CancelledError
+example : run KV.step [(1, 5)] [(false, .nop), (false, .nop), (false, .update 1 1), (true, .upsert 2 3)] [some (4, cancelled)]
+    = ⟨[(1, 6), (2, 3)], some cancelled, 1⟩ := by decide
+open KV in
+-- a BaseException raised by conn.commit() itself is a failed commit: nothing written
+example : run KV.step [(1, 5)] [(false, .nop), (false, .nop), (false, .update 1 1)] [some (3, ⟨.base, 1⟩)]
+    = ⟨[(1, 5)], some ⟨.base, 1⟩, 1⟩ := by decide
 example : pymysqlClass 1205 = .operational ∧ pymysqlClass 1213 = .operational ∧ pymysqlClass 2013 = .operational := by decide
 
 end HailVerif.C27
